@@ -195,7 +195,9 @@ def build_reference(d, kind, pins=None):
                     lp.add(bio[m] + [(i, -a) for i, a in bio[m - 1]], -np.inf, 0)
             for food, (h, k) in pin.items():
                 v = float(pins[food][m])
-                lp.add([(h[m], k)], (1 - band) * v, (1 + band) * v)
+                if -1e-6 < v < 0:
+                    v = 0.0        # solver noise on a variable bounded below by zero (CBC primal tolerance 1e-7)
+                lp.add([(h[m], k)], min((1 - band) * v, (1 + band) * v), max((1 - band) * v, (1 + band) * v))
         allf = [(i, -2 / 3 * a) for m in range(N) for i, a in feed[m]] + [(i, -1 / 3 * a) for m in range(N) for i, a in bio[m]]
         lp.add([(z, 1.0)] + allf, -np.inf, 0)
     return lp, z
